@@ -263,6 +263,12 @@ func corpus() []core.Case {
 		{Lines: []string{"@ C18 graph 5 0-1 0-2 0-3 0-4 1-2 1-3 1-4 2-3 2-4 3-4", "cliques", "bk 4 2 0 1 3"}},
 		{Lines: []string{"@ C18 graph 5 0-1 1-2 2-3 3-4 4-0", "cliques", "bk 0 2 4 1 3", "bkx 0 | 1 | 4", "bkx 0 | 4 1 |"}},
 		{Lines: []string{"@ C18 graph 4 0>1 1-2 3>2", "bk 0 1 2 3", "bk 3 1 0 2"}},
+		// minimised witnesses of mutants killed during development (aliasing of a table cell
+		// with tmp; a recycled slice still referenced by a cell; X passed on unintersected)
+		{Lines: []string{"@ C18 dp 3 5 2 4 4 4 3 3", "knap 9 le"}},
+		{Lines: []string{"@ C18 dp 1 3 4 4 2 3 2 4", "solv 14 0 h562 60793"}},
+		{Lines: []string{"@ C18 dp 4 2 2 3 5 2", "solv 11 1 lt 28120"}},
+		{Lines: []string{"@ C18 graph 5 2-4 3-4", "bk 4 2 0 1 3"}},
 	}
 }
 
